@@ -16,8 +16,82 @@ pub struct Built {
 }
 
 /// Build the graph of a case (rejected operations are C01's business) and snapshot it through the public API.
+/// Queries in the middle of the history: in a fifth of the cases the graph is built up to its last one to three
+/// operations, a battery of read-only calls is made on that very object (weighted and unweighted, whole graph and
+/// subsets), and only then are the remaining operations applied. Whatever a query memoises on the graph object or
+/// on the thread must not survive the mutation that follows: the judged calls run on the finished graph.
+fn build_with_reads_in_between(case: &Case, cx: &mut Ctx) -> Result<G, crate::core::rt::Panicked> {
+    let len = case.ops.len();
+    if case.seed % 5 != 2 || len < 2 {
+        return real::build(case.specs, &case.ops);
+    }
+    let tail = 1 + (case.seed / 5 % 3) as usize;
+    let split = len.saturating_sub(tail).max(1);
+    let mut g = real::build(case.specs, &case.ops[..split])?;
+    if let Ok(snap) = Snap::of(&g) {
+        if snap.n() >= 1 && snap.n() <= 400 {
+            reads_on(&g, &snap, case, cx);
+        }
+    }
+    for op in &case.ops[split..] {
+        real::apply(&mut g, op)?;
+    }
+    Ok(g)
+}
+
+fn reads_on(g: &G, snap: &Snap, case: &Case, cx: &mut Ctx) {
+    use graphrs::algorithms::centrality::{betweenness, closeness, eigenvector};
+    use graphrs::algorithms::community::partitions;
+    use graphrs::algorithms::shortest_path::dijkstra;
+    use graphrs::algorithms::{cluster, components};
+    let b = crate::core::rt::budget(snap.n(), snap.edges.len());
+    let sums_finite = (2.0 * snap.edges.iter().map(|e| e.2.abs()).sum::<f64>()).powi(2).is_finite();
+    let w = !snap.edges.is_empty() && snap.weighted() && all_positive(snap) && comparable_scale(snap) && sums_finite;
+    let first = snap.names[0].clone();
+    let some: Vec<String> = snap.names.iter().take(3).cloned().collect();
+    let mut done = 0u64;
+    macro_rules! read {
+        ($label:expr, $e:expr) => {
+            if crate::core::rt::call($label, b, || {
+                let _ = $e;
+            })
+            .is_ok()
+            {
+                done += 1;
+            }
+        };
+    }
+    read!("between:edges_have_weight", g.edges_have_weight());
+    read!("between:size", (g.size(false), g.size(true)));
+    read!("between:degrees", (g.get_degree_for_all_nodes(), g.number_of_edges(), g.number_of_nodes()));
+    for weighted in [false, w] {
+        // one path per node, never all of them: the number of shortest paths can be astronomical (regular graphs)
+        read!("between:single_source", dijkstra::single_source(g, weighted, first.clone(), None, None, true, true));
+        read!("between:all_pairs", dijkstra::all_pairs(g, weighted, None, None, true, false));
+        read!("between:betweenness", betweenness::betweenness_centrality(g, weighted, false));
+        read!("between:closeness", closeness::closeness_centrality(g, weighted, true));
+        if !snap.multi {
+            read!("between:clustering", cluster::clustering(g, weighted, None));
+            read!("between:clustering(subset)", cluster::clustering(g, weighted, Some(&some)));
+            read!("between:average_clustering", cluster::average_clustering(g, weighted, Some(&some), false));
+            read!("between:eigenvector", eigenvector::eigenvector_centrality(g, weighted, Some(30), Some(1e-6)));
+        }
+        let singles: Vec<std::collections::HashSet<String>> = snap.names.iter().map(|x| [x.clone()].into_iter().collect()).collect();
+        read!("between:modularity", partitions::modularity(g, &singles, weighted, None));
+    }
+    if snap.directed {
+        read!("between:strongly_connected_components", components::strongly_connected_components(g));
+    } else {
+        read!("between:connected_components", components::connected_components(g));
+    }
+    read!("between:breadth_first_search", g.breadth_first_search(&first));
+    let _ = case;
+    cx.count("probe.queries_in_the_middle_of_the_history");
+    cx.add("fault.queries_on_the_object_before_its_last_mutations", done);
+}
+
 pub fn build(case: &Case, cx: &mut Ctx) -> Option<Built> {
-    let g = match real::build(case.specs, &case.ops) {
+    let g = match build_with_reads_in_between(case, cx) {
         Ok(g) => g,
         Err(p) => {
             cx.fail(&format!("{}.build_panic", case.prop), "build", format!("building the graph panicked: {}", p.0));
@@ -38,7 +112,68 @@ pub fn build(case: &Case, cx: &mut Ctx) -> Option<Built> {
     if snap.n() > 20 {
         cx.count("probe.above_parallel_threshold");
     }
+    if case.seed % 3 == 1 && snap.n() >= 2 && snap.n() <= 400 {
+        earlier_calls(case, &snap, cx);
+    }
     Some(Built { g, snap })
+}
+
+/// What ran on this thread before: in a third of the cases a battery of valid library calls is made on a sibling
+/// graph (same names and edges, nodes declared in another order) before any judged call. Results are ignored
+/// (they are judged when the sibling is the case); whatever they leave behind on the thread - a memo, a reused
+/// buffer, a table sized for another graph - must not change what the judged calls return. All calls are
+/// unweighted, so extreme weights play no part.
+fn earlier_calls(case: &Case, snap: &Snap, cx: &mut Ctx) {
+    use graphrs::algorithms::centrality::{betweenness, closeness, eigenvector};
+    use graphrs::algorithms::community::louvain;
+    use graphrs::algorithms::shortest_path::dijkstra;
+    use graphrs::algorithms::{cluster, components};
+    let sib = match sibling(case) {
+        Some(s) => s,
+        None => return,
+    };
+    let b = crate::core::rt::budget(snap.n(), snap.edges.len());
+    let lb = super::c13::louvain_budget(snap.n(), snap.edges.len());
+    let (first, mid) = (snap.names[0].clone(), snap.names[snap.n() / 2].clone());
+    let mut done = 0u64;
+    macro_rules! earlier {
+        ($label:expr, $budget:expr, $e:expr) => {
+            if crate::core::rt::call($label, $budget, || {
+                let _ = $e;
+            })
+            .is_ok()
+            {
+                done += 1;
+            }
+        };
+    }
+    earlier!("earlier:single_source(target)", b, dijkstra::single_source(&sib, false, first.clone(), Some(mid.clone()), None, true, true));
+    earlier!("earlier:single_source(target,cutoff)", b, dijkstra::single_source(&sib, false, mid.clone(), Some(first.clone()), Some(2.0), false, false));
+    earlier!("earlier:all_pairs", b, dijkstra::all_pairs(&sib, false, None, None, false, false));
+    earlier!("earlier:betweenness", b, betweenness::betweenness_centrality(&sib, false, true));
+    earlier!("earlier:closeness", b, closeness::closeness_centrality(&sib, false, true));
+    earlier!("earlier:breadth_first_search", b, sib.breadth_first_search(&mid));
+    if snap.directed {
+        earlier!("earlier:strongly_connected_components", b, components::strongly_connected_components(&sib));
+        earlier!("earlier:weakly_connected_components", b, components::weakly_connected_components(&sib));
+    } else {
+        earlier!("earlier:connected_components", b, components::connected_components(&sib));
+    }
+    if !snap.multi {
+        earlier!("earlier:clustering", b, cluster::clustering(&sib, false, None));
+        earlier!("earlier:triangles", b, cluster::triangles(&sib, None));
+        earlier!("earlier:eigenvector", b, eigenvector::eigenvector_centrality(&sib, false, Some(20), Some(1e-6)));
+        // a weighted call that cannot converge (two sweeps): an error return, then the judged calls
+        let sums_finite = (2.0 * snap.edges.iter().map(|e| e.2.abs()).sum::<f64>()).powi(2).is_finite();
+        if !snap.edges.is_empty() && snap.weighted() && all_positive(snap) && sums_finite {
+            earlier!("earlier:eigenvector(weighted, 2 sweeps)", b, eigenvector::eigenvector_centrality(&sib, true, Some(2), Some(1e-12)));
+        }
+    }
+    if !snap.edges.is_empty() {
+        earlier!("earlier:louvain_partitions", lb, louvain::louvain_partitions(&sib, false, Some(1.0), Some(1e-7), Some(case.p_u64("louvain_seed").unwrap_or(1))));
+    }
+    cx.count("probe.earlier_calls_on_a_sibling_graph");
+    cx.add("fault.valid_calls_on_another_graph_before_the_judged_ones", done);
 }
 
 pub struct AlgoGen {
@@ -177,30 +312,41 @@ pub fn poison_prelude(env: &Env, cx: &mut Ctx) {
     };
     let b = crate::core::rt::budget(32, 32);
     let mut failed = 0;
-    for with_paths in [true, false] {
-        match crate::core::rt::call("poison:single_source", b, || dijkstra::single_source(&g, true, "s".to_string(), None, None, false, with_paths)) {
-            Ok(Ok(_)) => {}
-            _ => failed += 1,
-        }
-    }
-    match crate::core::rt::call("poison:all_pairs", b, || crate::pool::scoped(env.pool, || dijkstra::all_pairs(&g, true, None, None, false, true))) {
-        Ok(Ok(_)) => {}
-        _ => failed += 1,
-    }
-    match crate::core::rt::call("poison:multi_source", b, || crate::pool::scoped(env.pool, || dijkstra::multi_source(&g, true, vec!["s".to_string(), "b".to_string()], Some("d".to_string()), None, false, true))) {
-        Ok(Ok(_)) => {}
-        _ => failed += 1,
-    }
-    // valid searches that stop early at a target (unweighted, so the negative edge does not matter): whatever
-    // they leave behind - a fringe that was not drained, a scratch table - must not reach the judged calls
     let mut early = 0;
-    for (t, first_only, with_paths) in [("a", false, false), ("b", true, true), ("c", false, true), ("a", true, false)] {
-        if let Ok(Ok(_)) = crate::core::rt::call("prelude:single_source(target)", b, || dijkstra::single_source(&g, false, "s".to_string(), Some(t.to_string()), None, first_only, with_paths)) {
-            early += 1;
+    // the order varies: what is left behind by the LAST call before the judged ones is what matters
+    let order: &[u8] = match (env.sched ^ env.keying) % 3 {
+        0 => &[0, 1],
+        1 => &[1, 0],
+        _ => &[0],
+    };
+    for block in order {
+        if *block == 0 {
+            for with_paths in [false, true] {
+                match crate::core::rt::call("poison:single_source", b, || dijkstra::single_source(&g, true, "s".to_string(), None, None, false, with_paths)) {
+                    Ok(Ok(_)) => {}
+                    _ => failed += 1,
+                }
+            }
+            match crate::core::rt::call("poison:multi_source", b, || crate::pool::scoped(env.pool, || dijkstra::multi_source(&g, true, vec!["s".to_string(), "b".to_string()], Some("d".to_string()), None, false, true))) {
+                Ok(Ok(_)) => {}
+                _ => failed += 1,
+            }
+            match crate::core::rt::call("poison:all_pairs", b, || crate::pool::scoped(env.pool, || dijkstra::all_pairs(&g, true, None, None, false, true))) {
+                Ok(Ok(_)) => {}
+                _ => failed += 1,
+            }
+        } else {
+            // valid searches that stop early at a target (unweighted, so the negative edge does not matter): whatever
+            // they leave behind - a fringe that was not drained, a scratch table - must not reach the judged calls
+            for (t, first_only, with_paths) in [("a", false, false), ("b", true, true), ("c", false, true), ("a", true, false)] {
+                if let Ok(Ok(_)) = crate::core::rt::call("prelude:single_source(target)", b, || dijkstra::single_source(&g, false, "s".to_string(), Some(t.to_string()), None, first_only, with_paths)) {
+                    early += 1;
+                }
+            }
+            if let Ok(Ok(_)) = crate::core::rt::call("prelude:all_pairs(target)", b, || crate::pool::scoped(env.pool, || dijkstra::all_pairs(&g, false, Some("a".to_string()), None, false, false))) {
+                early += 1;
+            }
         }
-    }
-    if let Ok(Ok(_)) = crate::core::rt::call("prelude:all_pairs(target)", b, || crate::pool::scoped(env.pool, || dijkstra::all_pairs(&g, false, Some("a".to_string()), None, false, false))) {
-        early += 1;
     }
     cx.add("fault.searches_stopped_early_before_the_judged_ones", early);
     cx.count("probe.poison_prelude");
@@ -225,6 +371,61 @@ pub fn sibling(case: &Case) -> Option<G> {
         }
     }
     real::build(case.specs, &ops).ok()
+}
+
+/// Counters that wrap: a judged call is repeated after exactly 255, 256, 32 767, 32 768, 65 535 and 65 536 further
+/// calls (counted per call and per inner unit, e.g. per source of an all-sources function) of a trivial filler call
+/// on the same thread. `judged(k)` makes the k-th judged call and renders its answer; calls with the same k % 2
+/// have the same arguments and must give the same answer. Epoch stamps of 8 or 16 bits, generation counters and
+/// ring indices alias at these distances.
+pub fn wrap_probe(cx: &mut Ctx, id: &str, what: &str, inner: usize, mut judged: impl FnMut(usize) -> Option<String>, mut filler: impl FnMut()) {
+    let mut firsts: [Option<String>; 2] = [None, None];
+    let mut k = 0usize;
+    let mut check = |k: usize, cx: &mut Ctx, firsts: &mut [Option<String>; 2], judged: &mut dyn FnMut(usize) -> Option<String>, after: usize| -> bool {
+        let r = match judged(k) {
+            Some(r) => r,
+            None => return false,
+        };
+        match &firsts[k % 2] {
+            None => firsts[k % 2] = Some(r),
+            Some(f) => {
+                if f != &r {
+                    cx.fail(&format!("{}.depends_on_call_count", id), &format!("{} changes after many calls on the thread", what), format!("{}: the answer to the same call differs after {} further calls on the same thread: first {} then {}", what, after, &f[..f.len().min(600)], &r[..r.len().min(600)]));
+                    return false;
+                }
+            }
+        }
+        true
+    };
+    if !check(k, cx, &mut firsts, &mut judged, 0) {
+        return;
+    }
+    k += 1;
+    if !check(k, cx, &mut firsts, &mut judged, 0) {
+        return;
+    }
+    let mut fillers = 0u64;
+    for units in [1usize, inner.max(1)] {
+        for d in [255usize, 256, 32_767, 32_768, 65_535, 65_536] {
+            // the next judged call starts exactly d units after the previous one started (a judged call uses `units`)
+            if d <= units {
+                continue;
+            }
+            for _ in 0..(d - units) {
+                filler();
+            }
+            fillers += (d - units) as u64;
+            k += 1;
+            if !check(k, cx, &mut firsts, &mut judged, d) {
+                return;
+            }
+        }
+        if inner <= 1 {
+            break;
+        }
+    }
+    cx.count("probe.counter_wrap_probe");
+    cx.add("fault.filler_calls_between_repeated_judged_calls", fillers);
 }
 
 pub type SpMap = BTreeMap<String, (f64, Vec<Vec<String>>)>;
